@@ -193,9 +193,13 @@ def execute(plan):
                 pw = np.linalg.norm(fF[k], "fro") ** 2
                 # MMSE finds the Lagrange multiplier with scipy's newton (default step tolerance 1.48e-8):
                 # right after its solve() the constraint is met only up to that root-finding tolerance
-                ptol = 1e-5 if (kind == "mmse" and m.get("F_from_solve")) else 1e-8
+                # right after its solve() the constraint is met only up to that root-finding tolerance; the
+                # implementation itself documents an allowance of P/1e6 ("we allow a positive cost lower then P/1e6")
+                ptol = 1e-6 if (kind == "mmse" and m.get("F_from_solve")) else 1e-8
                 if pw > m["P"][k] * (1 + ptol) + 1e-12:
-                    viol("power", step, "|full_F[%d]|^2 = %.9g exceeds the current power %.9g (after %s)" % (k, pw, m["P"][k], after), rel="exceeds")
+                    excess = pw / m["P"][k] - 1.0
+                    viol("power", step, "|full_F[%d]|^2 = %.9g exceeds the current power %.9g by %.3g relative (after %s)" % (k, pw, m["P"][k], excess, after),
+                         rel="exceeds", from_mmse_solve=bool(kind == "mmse" and m.get("F_from_solve")), excess_below_1e_3=bool(excess < 1e-3))
                     return
                 if True:
                     if kind != "mmse" and abs(pw - m["P"][k]) > 1e-8 * m["P"][k]:
